@@ -83,6 +83,14 @@ where
         if mt != rt {
             return Some(format!("probe trace differs: model {:?} vs real {:?}", mt, rt));
         }
+        for (mp, rp) in m.trace.iter().zip(&r.trace) {
+            if !span_ok::<I>(buf, (mp.pos, mp.pos), (rp.off, rp.off_end)) {
+                return Some(format!("zero-width probe {} at token position {}: its (empty) span is reported as {}..{}", mp.id, mp.pos, rp.off, rp.off_end));
+            }
+            if mp.ctx != rp.ctx {
+                return Some(format!("context seen at probe {} (token position {}): model {} vs real {}", mp.id, mp.pos, mp.ctx.show(), rp.ctx.show()));
+            }
+        }
     }
     None
 }
@@ -132,6 +140,8 @@ pub struct Spec {
     pub counters: fn(&mut Acc, &Outcome, &RunOut),
     /// classify a disagreement: `Some(signature)` attaches a known-finding signature to the violation
     pub signature: fn(&G, &Outcome, &str) -> Option<String>,
+    /// the parsers were built with `Opts { slice: true }` (every node also captures its slice)
+    pub slice: bool,
     /// also run check() and compare acceptance/errors/state/trace with the model
     pub also_check: bool,
 }
@@ -155,7 +165,7 @@ pub fn model_case<'s, I: Kind<'s>, ER: ErrK<'s, I>>(acc: &mut Acc, spec: &Spec, 
 where
     I::Span: Clone + 's,
 {
-    let m = model_of(g, &buf.chars, true);
+    let m = model::run_opts2(g, &buf.chars, St::fresh(0), MODEL_BUDGET, true, spec.slice);
     acc.evaluations += 1;
     if m.pathological {
         acc.pathological += 1;
